@@ -32,7 +32,7 @@
     does not transcribe, the function returns [OutOfFuel] (written
     [unmodelled]); the correspondence run counts such an answer as "no
     prediction" (it is reported in the evidence), so it can never stand in for
-    a real outcome.  The file follows /repo as of commit c7fc96e (where/reject/
+    a real outcome.  The file follows /repo as of commit 4b09308 (where/reject/
     find/has use Liquid equality and truthiness, compact treats a missing
     property as nil, map answers nil for a missing property).
 
@@ -634,7 +634,7 @@ Definition liq_contains (left right : val) : res bool :=
       if hashable right then
         Ok (match right with VStr k => match assoc k kvs with Some _ => true | None => false end
                         | _ => false end)
-      else PyExc TypeError
+      else Ok false                                (* except TypeError: return False *)
   | VUndef => Ok false                               (* Undefined.__contains__ *)
   | VObj h items _ seq _ =>
       match o_kind h with
@@ -643,6 +643,7 @@ Definition liq_contains (left right : val) : res bool :=
           match py_getitem false left right with
           | Ok _ => Ok true
           | PyExc KeyError => Ok false
+          | PyExc TypeError => Ok false            (* except TypeError: return False *)
           | r => rmap (fun _ => false) r
           end
       | KSequence => py_list_contains seq right      (* Sequence.__contains__ *)
@@ -849,7 +850,7 @@ Definition f_getitem (obj key default : val) : res val :=
 (** filtering_filters.py _property (compact): obj[key], a missing key is None. *)
 Definition f_property (obj key : val) : res val :=
   match py_getitem false obj key with
-  | PyExc KeyError => Ok VNil
+  | PyExc KeyError | PyExc IndexError => Ok VNil
   | r => r
   end.
 
@@ -999,9 +1000,14 @@ Definition arg_val (async : bool) (c : ctx) (a : farg) : res val :=
   | ALam _ _ => unmodelled
   end.
 
-(** A TypeError escaping a filter becomes LiquidTypeError (Filter.evaluate). *)
+(** A TypeError, ValueError or ArithmeticError escaping a filter becomes
+    LiquidTypeError (Filter.evaluate). *)
 Definition wrap_type_error {A} (r : res A) : res A :=
-  match r with PyExc TypeError => LErr LiquidTypeError None | _ => r end.
+  match r with
+  | PyExc TypeError | PyExc ValueError | PyExc OverflowError | PyExc ZeroDivisionError =>
+      LErr LiquidTypeError None
+  | _ => r
+  end.
 
 Definition select_by (keep_if : bool) (l : list val) (rs : list val) : list val :=
   List.map fst
@@ -1023,7 +1029,7 @@ Fixpoint uniq_keys (l : list (val * option val)) (missing : bool) (keys : list v
       else rmap (cons obj) (uniq_keys l' missing (keys ++ [k]))
   end.
 
-(** UniqFilter with a string key: item = obj[key]; KeyError -> MISSING;
+(** UniqFilter with a string key: item = obj[key]; KeyError / IndexError -> MISSING;
     TypeError -> LiquidTypeError; anything else propagates. *)
 Fixpoint uniq_prop (k : val) (l : list val) (missing : bool) (keys : list val)
   : res (list val) :=
@@ -1031,7 +1037,7 @@ Fixpoint uniq_prop (k : val) (l : list val) (missing : bool) (keys : list val)
   | [] => Ok []
   | obj :: l' =>
       match py_getitem false obj k with
-      | PyExc KeyError =>
+      | PyExc KeyError | PyExc IndexError =>
           if missing then uniq_prop k l' true keys
           else rmap (cons obj) (uniq_prop k l' true keys)
       | PyExc TypeError => LErr LiquidTypeError None
